@@ -206,11 +206,15 @@ pub struct OpKnobs {
     pub allow_overlap: bool,
     /// select deprecated fields
     pub deprecated: bool,
+    /// now and then rewrite the fragments on one abstract type so that they select `__typename` only through a spread of
+    /// ONE shared base fragment on that type (`fragment Base on T { __typename }`): valid, and the generator's check for
+    /// `__typename` must follow the spread in every one of them (only used where the compiled code is not run on payloads)
+    pub shared_typename_base: bool,
 }
 
 impl Default for OpKnobs {
     fn default() -> Self {
-        OpKnobs { max_depth: 3, fragments: true, recursive_fragments: true, aliases: true, variables: true, allow_overlap: false, deprecated: true }
+        OpKnobs { max_depth: 3, fragments: true, recursive_fragments: true, aliases: true, variables: true, allow_overlap: false, deprecated: true, shared_typename_base: false }
     }
 }
 
@@ -317,6 +321,14 @@ impl<'a> OpGen<'a> {
                     }
                     if !sub.is_empty() {
                         sels.push(ASel::Inline { on: pt.clone(), sub });
+                        // a SECOND inline fragment on the same possible type whose body is a lone spread: the selections on
+                        // one variant are merged into one struct (under `deny` the first may render no field at all, and
+                        // the struct must still be a struct: `has_fields` counts pushed fields)
+                        if self.k.fragments && rng.chance(20) {
+                            if let Some(name) = self.fragment_for(rng, &pt, depth, used) {
+                                sels.push(ASel::Inline { on: pt.clone(), sub: vec![ASel::Spread { name }] });
+                            }
+                        }
                     }
                 }
             }
@@ -566,7 +578,33 @@ pub fn random_doc(rng: &mut Rng, s: &ASchema, k: &OpKnobs) -> ADoc {
     for op in &ops {
         walk(&op.sels, &g.frags, &mut reachable);
     }
-    let frags: Vec<AFrag> = g.frags.into_iter().filter(|f| reachable.contains(&f.name)).collect();
+    let mut frags: Vec<AFrag> = g.frags.into_iter().filter(|f| reachable.contains(&f.name)).collect();
+    if k.shared_typename_base && rng.chance(40) {
+        // abstract types with at least two fragments that select `__typename` directly
+        let mut by_type: Vec<(String, Vec<usize>)> = Vec::new();
+        for (i, f) in frags.iter().enumerate() {
+            if s.is_abstract(&f.on) && f.sels.iter().any(|x| matches!(x, ASel::Typename)) {
+                match by_type.iter_mut().find(|(t, _)| *t == f.on) {
+                    Some((_, v)) => v.push(i),
+                    None => by_type.push((f.on.clone(), vec![i])),
+                }
+            }
+        }
+        for (ty, idxs) in by_type {
+            if idxs.len() < 2 {
+                continue;
+            }
+            let base = format!("{}TypenameBase", ty);
+            for i in &idxs {
+                for x in frags[*i].sels.iter_mut() {
+                    if matches!(x, ASel::Typename) {
+                        *x = ASel::Spread { name: base.clone() };
+                    }
+                }
+            }
+            frags.push(AFrag { name: base, on: ty, sels: vec![ASel::Typename] });
+        }
+    }
     ADoc { ops, frags }
 }
 
